@@ -6,7 +6,7 @@ import ast
 from typing import Dict, List, Optional, Set
 
 from ..core import astq
-from ..core.program import AnalysisError, Program, ancestors, norm, short, walk_function
+from ..core.program import enclosing_stmt, AnalysisError, Program, ancestors, norm, short, walk_function
 from ..report import Result
 from ..runner import Variant
 from . import c09, c17
@@ -138,8 +138,11 @@ def check_filter(prog: Program, res: Result) -> None:
     fields = list(ec_cls.fields())
     for ec in ecs:
         comp = ec._parent
-        if isinstance(comp, ast.ListComp) and isinstance(comp.generators[0].iter, ast.Call) and norm(comp.generators[0].iter.func) == "zip":
-            z = comp.generators[0].iter.args
+        zit = comp.generators[0].iter if isinstance(comp, ast.ListComp) else None
+        if isinstance(zit, ast.Name):      # the zip has a name of its own:  edge_matches = zip(src, dst, scores)
+            zit = astq.expand_at(fi.node, zit, enclosing_stmt(comp), depth=1) or zit
+        if isinstance(comp, ast.ListComp) and isinstance(zit, ast.Call) and norm(zit.func) == "zip":
+            z = zit.args
             tg = comp.generators[0].target.elts if isinstance(comp.generators[0].target, ast.Tuple) else []
             # map each constructor position to the source array through the zip
             # (each zipped sequence with named intermediates expanded; the array behind a masked selection A[mask])
